@@ -14,6 +14,7 @@ import PyGqlModel.Lemmas.SpanSolid
 import PyGqlModel.Lemmas.SpanShiftDoc
 import PyGqlModel.Lemmas.SpanWfDoc
 import PyGqlModel.Lemmas.SpanVals
+import PyGqlModel.Lemmas.SpanValsTS
 namespace PyGql.Props.C02
 open PyGql PyGql.Ast PyGql.Parse PyGql.Spec PyGql.Props.C01
 open PyGql.Spec.Lexical (Tiles slice eofT)
@@ -110,6 +111,21 @@ theorem span_reparse_exec_value (fl : Flags) (s : Text) (d : Document) (h : pars
     obtain ⟨hs, hwf⟩ := fragment_vals fl f w hw
     exact span_reparse_doc_value fl s d h _ hf w (by simpa [definitionV] using hs)
       (hwf (by simpa [wfDefinition] using wfx _ hf)) a b hloc
+
+/-- ALL documents (executable and type-system, all flags), no side hypothesis: every value node of every definition
+    (`Definition.vals`: arguments of fields and of directives wherever directives occur, default values of variable
+    definitions, of argument definitions and of input fields, and every value nested in them) is what `parse_value`
+    returns for the characters inside its span, modulo the offset. -/
+theorem span_reparse_value_all (fl : Flags) (s : Text) (d : Document) (h : parseText fl s = some d) :
+    ∀ x ∈ d.definitions, ∀ w ∈ x.vals, ∀ a b, w.loc = some (a, b) →
+      a ≤ b ∧ b ≤ s.length ∧ parseValueText fl (slice s a b) = some (w.mapLoc (locDown a)) := by
+  intro x hx w hw a b hloc
+  obtain ⟨_, _, wf, _⟩ := (parse_text_result_partial fl s d).1 h
+  have wfx : wfDefinition fl x = true := by
+    simp only [wfDocument, Bool.and_eq_true, List.all_eq_true] at wf
+    exact (wf.2 x hx).1
+  obtain ⟨hs, hwf⟩ := definition_vals fl x w hw
+  exact span_reparse_doc_value fl s d h x hx w hs (hwf wfx) a b hloc
 
 theorem definitionV_node (x : Definition) : ∃ is, definitionV x = .node x.loc is := by
   cases x with
